@@ -152,7 +152,16 @@ func Generate(ctx context.Context, wd string, env []string, patterns []string, o
 // constraintLine returns the //go:build line of a formatted source file, or
 // "" if it has none.
 func constraintLine(src []byte) string {
+	inBlockComment := false
 	for _, line := range strings.Split(string(src), "\n") {
+		if inBlockComment {
+			inBlockComment = !strings.Contains(line, "*/")
+			continue
+		}
+		if strings.HasPrefix(line, "/*") {
+			inBlockComment = !strings.Contains(line[2:], "*/")
+			continue
+		}
 		if strings.HasPrefix(line, "//go:build ") {
 			return line
 		}
